@@ -15,6 +15,7 @@ EXPLANATION = (
     "double quotes, otherwise it is a glob pattern -- the printf %q prefix idiom is recognised structurally; eval expands only clean values at its first level; no command argument, array element or for-list word expands a text "
     "variable unquoted). "
     "NOT decided: that real shells implement their manuals; candidates actually shown by readline."
+    " POSTENC: a String that holds encoder output is handed on whole (never split into lines, trimmed or replaced in) on its way to the script."
 )
 ASSUMPTIONS = [
     "decoder transcriptions in vlib/xducer.py (bash/zsh/fish/PowerShell double-quote rules from their manuals) are the trusted base",
